@@ -175,17 +175,21 @@ def dispatch_cases(ctx, n):
         async def send(m):
             sent.append(m)
 
-        drive(_DispatcherMiddleware(mounts)({"type": "http", "path": path}, None, send))
+        styp = "websocket" if idx % 4 == 3 else "http"
+        drive(_DispatcherMiddleware(mounts)({"type": styp, "path": path}, None, send))
         if hits:
             obs = [[hits[0][0], C.U(hits[0][1])]]
         else:
             obs = None
-        case = {"kind": "dispatch", "mounts": prefixes, "path": path, "obs": repr(obs)}
+        case = {"kind": "dispatch", "scope_type": styp, "mounts": prefixes, "path": path, "obs": repr(obs)}
         fails = []
         want = next((i for i, p in enumerate(prefixes) if path.startswith(p)), None)
         if want is None:
-            if hits or not sent or sent[0].get("status") != 404:
-                fails.append({"case": case, "what": "no mount matches but no 404", "signature": "dispatch:404"})
+            # (a WebSocket request is answered through the HTTP-response extension: http.response.* is not a message a
+            # websocket scope may send, the server would turn it into a 500)
+            want_type = "websocket.http.response.start" if styp == "websocket" else "http.response.start"
+            if hits or not sent or sent[0].get("status") != 404 or sent[0].get("type") != want_type:
+                fails.append({"case": case, "what": f"no mount matches a {styp} request but no 404 in its own message type: {sent[:1]}", "signature": "dispatch:404"})
         else:
             rest = path[len(prefixes[want]):] or "/"
             if len(hits) != 1 or hits[0] != (want, rest) or sent:
